@@ -115,4 +115,31 @@ theorem length_lRun : ∀ (h : List Op) (l : Live), (lRun l h).length = h.length
   | nil => intro _; rfl
   | cons o r ih => intro l; simp [lRun, ih]
 
+/-! ### the state-independent fragment of the committed code -/
+
+theorem fragOkC_not_crash {op : Op} (h : fragOkC op = true) : op ≠ .crash := by
+  intro e; subst e; simp [fragOkC] at h
+
+theorem fragRunC_crashFree (h : List Op) (hf : fragRunC h = true) : ∀ op ∈ h, op ≠ Op.crash := by
+  intro op hop
+  simp only [fragRunC, List.all_eq_true] at hf
+  exact fragOkC_not_crash (hf op hop)
+
+/-- the old, state-dependent fragment lies inside the new one -/
+theorem fragOk_fragOkC {l : Live} {op : Op} (h : fragOk l op = true) : fragOkC op = true := by
+  cases op <;> first | rfl | simp [fragOk] at h
+
+theorem fragRun_fragRunC : ∀ (h : List Op) (l : Live), fragRun l h = true → fragRunC h = true := by
+  intro h
+  induction h with
+  | nil => intro _ _; rfl
+  | cons op r ih =>
+    intro l hf
+    simp only [fragRun, Bool.and_eq_true] at hf
+    simp only [fragRunC, List.all_cons, Bool.and_eq_true]
+    exact ⟨fragOk_fragOkC hf.1, by simpa [fragRunC] using ih _ hf.2⟩
+
+theorem fragOkC_sync (s : Op) (hs : isSync s = true) : fragOkC s = true := by
+  cases s <;> simp [isSync] at hs <;> rfl
+
 end TV.Fs
